@@ -5,7 +5,8 @@
 From Coq Require Import ZArith Reals List Lra Lia.
 From Dadi Require Import Base.Num Base.NumR Model.FromPhi Proofs.FromPhiBase Proofs.FromPhiMass1D Proofs.FromPhiLin
   Proofs.FromPhiND Proofs.FromPhiPaths Proofs.FromPhiSums Proofs.FromPhiProject Proofs.FromPhiMarg Proofs.FromPhiMore
-  Proofs.FromPhiIntegral Proofs.FromPhiAdmix.
+  Proofs.FromPhiIntegral Proofs.FromPhiAdmix
+  Proofs.FromPhiMargK Proofs.FromPhiProjAnalytic Proofs.FromPhiBBConv.
 Import ListNotations.
 Local Open Scope R_scope.
 
@@ -146,3 +147,86 @@ Theorem C05_incomplete_beta_derivative : forall N a (x : R), (a <= N)%nat ->
   is_derive (fun t => tailB (S N) (S a) t) x (INR (S N) * B N a x).
 Proof. exact tail_derive. Qed.
 
+(** *** marginalising ANY population k after sampling = integrating axis k out of phi before sampling.
+    [sum_axis k shape fs] / [trapz_axis k xx shape phi] = [map_axis k g 1 shape] with g v = [rsum v] / [trapz xx v];
+    [map_axis k g gout shape fs] applies the 1-D function g along axis k of the flat C-order array (C05_map_axis_entries);
+    [remove_nth k l] drops position k, [replace_nth k x l] overwrites it. *)
+Theorem C05_marginalise_commutes : forall k ops shape xx phi,
+  ops_ok ops shape -> (k < length shape)%nat ->
+  sums_to_trapz (nth k ops (fun v => v, 0%nat)) (nth k shape 0%nat) xx -> length phi = prodl shape ->
+  sum_axis k (map snd ops) (nd ops shape phi)
+  = nd (remove_nth k ops) (remove_nth k shape) (trapz_axis k xx shape phi).
+Proof. exact marginalise_axis_k. Qed.
+Print Assumptions C05_marginalise_commutes.
+(** what [map_axis] is, on flat indices: with outer / inner = product of the axis lengths before / after axis k,
+    entry (a, i, c) of the result is entry i of g applied to the line (a, . , c) of the input *)
+Theorem C05_map_axis_entries : forall g gout k shape fs a i c,
+  (k < length shape)%nat -> linop (nth k shape 0%nat) gout g -> length fs = prodl shape ->
+  (a < prodl (firstn k shape))%nat -> (i < gout)%nat -> (c < prodl (skipn (S k) shape))%nat ->
+  nth ((a * gout + i) * prodl (skipn (S k) shape) + c) (map_axis k g gout shape fs) 0
+  = nth i (g (map (fun l => nth ((a * nth k shape 0%nat + l) * prodl (skipn (S k) shape) + c) fs 0) (seq 0 (nth k shape 0%nat)))) 0.
+Proof. exact map_axis_nth. Qed.
+Theorem C05_sum_axis_entries : forall k shape fs a c, (k < length shape)%nat -> length fs = prodl shape ->
+  (a < prodl (firstn k shape))%nat -> (c < prodl (skipn (S k) shape))%nat ->
+  nth (a * prodl (skipn (S k) shape) + c) (sum_axis k shape fs) 0
+  = rsum (map (fun l => nth ((a * nth k shape 0%nat + l) * prodl (skipn (S k) shape) + c) fs 0) (seq 0 (nth k shape 0%nat))).
+Proof. exact sum_axis_nth. Qed.
+Theorem C05_trapz_axis_entries : forall k xx shape phi a c, (k < length shape)%nat -> length phi = prodl shape ->
+  (a < prodl (firstn k shape))%nat -> (c < prodl (skipn (S k) shape))%nat ->
+  nth (a * prodl (skipn (S k) shape) + c) (trapz_axis k xx shape phi) 0
+  = trapz xx (map (fun l => nth ((a * nth k shape 0%nat + l) * prodl (skipn (S k) shape) + c) phi 0) (seq 0 (nth k shape 0%nat))).
+Proof. exact trapz_axis_nth. Qed.
+(** the model's n-D semi-analytic path, grids inside [0,1] *)
+Theorem C05_marginalise_commutes_linalg : forall k ns xxs shape phi,
+  List.Forall (List.Forall (fun x => 0 <= x <= 1)) xxs -> length ns = length shape -> length xxs = length shape ->
+  (k < length shape)%nat -> length phi = prodl shape ->
+  sum_axis k (map S ns) (nd (linalg_ops ns xxs) shape phi)
+  = nd (linalg_ops (remove_nth k ns) (remove_nth k xxs)) (remove_nth k shape) (trapz_axis k (nth k xxs []) shape phi).
+Proof. exact marginalise_linalg. Qed.
+Print Assumptions C05_marginalise_commutes_linalg.
+
+(** *** sampling n and projecting to m is sampling m: the semi-analytic 1-D path (every grid, every phi) and the axis
+    function of the n-D recursion (line through the unclipped points, integrated between the clipped ones) *)
+Theorem C05_project_of_sample_analytic : forall n m xx (phi : list R), (m <= n)%nat ->
+  project1 n m (analytic1D n xx phi) = analytic1D m xx phi.
+Proof. exact project_of_sample_analytic1D. Qed.
+Print Assumptions C05_project_of_sample_analytic.
+Theorem C05_project_of_sample_analytic_ax : forall n m xx (phi : list R), (m <= n)%nat ->
+  project1 n m (analytic_ax n xx phi) = analytic_ax m xx phi.
+Proof. exact project_of_sample_analytic_ax. Qed.
+(** d dimensions, any axis k ([project_axis k n m shape] = [map_axis k (project1 n m) (S m) shape]): for every list of
+    linear 1-D operators whose k-th member has the 1-D property; instances: the semi-analytic and the direct paths *)
+Theorem C05_project_of_sample_any_axis : forall k ops shape T n T' m phi,
+  ops_ok ops shape -> (k < length ops)%nat -> nth k ops axop0 = (T, S n) ->
+  (forall v, length v = nth k shape 0%nat -> project1 n m (T v) = T' v) -> length phi = prodl shape ->
+  project_axis k n m (map snd ops) (nd ops shape phi) = nd (replace_nth k (T', S m) ops) shape phi.
+Proof. exact project_of_sample_nd. Qed.
+Print Assumptions C05_project_of_sample_any_axis.
+Theorem C05_project_of_sample_linalg : forall k ns xxs shape m phi,
+  length ns = length shape -> length xxs = length shape -> (k < length shape)%nat -> (m <= nth k ns 0)%nat ->
+  length phi = prodl shape ->
+  project_axis k (nth k ns 0%nat) m (map S ns) (nd (linalg_ops ns xxs) shape phi)
+  = nd (linalg_ops (replace_nth k m ns) xxs) shape phi.
+Proof. exact project_of_sample_linalg. Qed.
+Print Assumptions C05_project_of_sample_linalg.
+Theorem C05_project_of_sample_direct_nd : forall het k ns xxs shape m phi,
+  List.Forall2 (fun xx L => length xx = L) xxs shape -> length ns = length shape -> (k < length shape)%nat ->
+  (m <= nth k ns 0)%nat -> length phi = prodl shape ->
+  project_axis k (nth k ns 0%nat) m (map S ns) (nd (direct_ops het ns xxs) shape phi)
+  = nd (direct_ops het (replace_nth k m ns) xxs) shape phi.
+Proof. exact project_of_sample_direct_nd. Qed.
+
+(** *** BetaBinomConvolution as written (sum over partitions, [bbconv]) = coefficient of the n-th power of the generating
+    polynomial ([bbconv_pow], the form used by [inb_fac] and C05_betabinom_conv_sums_to_one): all i, n, ploidy, alpha, beta *)
+Theorem C05_betabinom_conv_partition_is_power : forall i n (a b : R) p, bbconv i n a b p = bbconv_pow i n a b p.
+Proof. exact bbconv_is_bbconv_pow. Qed.
+Print Assumptions C05_betabinom_conv_partition_is_power.
+(** the multinomial theorem behind it, for an arbitrary coefficient table *)
+Theorem C05_partition_sum_is_power_coefficient : forall p (tb : list R), length tb = S p -> forall i n,
+  rsum (map (fun prt => nprod (map2 fpow tb (pcounts p prt)) * IZR (multinomZ (pcounts p prt))) (parts n i 0 p))
+  = nth i (ppow tb n) 0.
+Proof. exact partition_sum_is_power_coefficient. Qed.
+(** hence the partition form sums to one as well *)
+Theorem C05_betabinom_conv_partition_sums_to_one : forall n p (a b : R), rising (a + b) p <> 0 ->
+  rsum (map (fun i => bbconv i n a b p) (seq 0 (S (n * p)))) = 1.
+Proof. exact bbconv_sum1. Qed.
